@@ -41,11 +41,13 @@ pub struct Event {
 struct Live {
     size: usize,
     align: usize,
-    raw: usize,
+    raw: *mut u8,
     raw_size: usize,
     raw_align: usize,
     pad: usize,
 }
+
+unsafe impl Send for Live {}
 
 struct Ledger {
     guarded: bool,
@@ -191,12 +193,12 @@ pub fn flush_quarantine() {
 
 fn release(b: Live) {
     unsafe {
-        let body = (b.raw + b.pad) as *const u8;
+        let body = b.raw.add(b.pad) as *const u8;
         for i in 0..b.size {
             if *body.add(i) != FREED {
                 crate::viol!(
                     "ckalloc: write to freed block {:#x}+{} (size {}, align {})",
-                    b.raw + b.pad,
+                    b.raw as usize + b.pad,
                     i,
                     b.size,
                     b.align
@@ -205,10 +207,7 @@ fn release(b: Live) {
             }
         }
         check_canaries(&b, "freed");
-        std::alloc::dealloc(
-            b.raw as *mut u8,
-            Layout::from_size_align_unchecked(b.raw_size, b.raw_align),
-        );
+        std::alloc::dealloc(b.raw, Layout::from_size_align_unchecked(b.raw_size, b.raw_align));
     }
 }
 
@@ -220,7 +219,7 @@ fn check_canaries(b: &Live, what: &str) {
                 crate::viol!(
                     "ckalloc: red zone before {} block {:#x} damaged at -{} (size {}, align {})",
                     what,
-                    b.raw + b.pad,
+                    b.raw as usize + b.pad,
                     b.pad - i,
                     b.size,
                     b.align
@@ -234,7 +233,7 @@ fn check_canaries(b: &Live, what: &str) {
                 crate::viol!(
                     "ckalloc: red zone after {} block {:#x} damaged at +{} (size {}, align {})",
                     what,
-                    b.raw + b.pad,
+                    b.raw as usize + b.pad,
                     i,
                     b.size,
                     b.align
@@ -304,7 +303,7 @@ unsafe impl Allocator for CkAlloc {
                 std::ptr::write_bytes(raw.add(pad + size), CANARY, RED);
                 (
                     raw.add(pad),
-                    Live { size, align, raw: raw as usize, raw_size, raw_align, pad },
+                    Live { size, align, raw, raw_size, raw_align, pad },
                 )
             } else {
                 let p = if size == 0 {
@@ -315,7 +314,7 @@ unsafe impl Allocator for CkAlloc {
                 if p.is_null() {
                     return Err(AllocError);
                 }
-                (p, Live { size, align, raw: p as usize, raw_size: size, raw_align: align, pad: 0 })
+                (p, Live { size, align, raw: p, raw_size: size, raw_align: align, pad: 0 })
             }
         };
         with(|l| {
@@ -363,7 +362,7 @@ unsafe impl Allocator for CkAlloc {
         let Some((b, guarded)) = rec else { return };
         if guarded && b.pad != 0 {
             check_canaries(&b, "live");
-            std::ptr::write_bytes((b.raw + b.pad) as *mut u8, FREED, b.size);
+            std::ptr::write_bytes(b.raw.add(b.pad), FREED, b.size);
             let evict: Vec<Live> = with(|l| {
                 l.quarantine_bytes += b.raw_size;
                 l.quarantine.push_back(b);
@@ -379,7 +378,7 @@ unsafe impl Allocator for CkAlloc {
                 release(x);
             }
         } else if b.size != 0 {
-            std::alloc::dealloc(b.raw as *mut u8, Layout::from_size_align_unchecked(b.raw_size, b.raw_align));
+            std::alloc::dealloc(b.raw, Layout::from_size_align_unchecked(b.raw_size, b.raw_align));
         }
     }
 }
